@@ -79,6 +79,8 @@ def qcow2_chain(draw, tier):
 def qcow2_snap(draw, tier):
     cb = draw(st.sampled_from([9, 12, 16, 14]))
     ng = draw(st.integers(1, 40))
+    if cb == 9 and draw(st.booleans()):
+        ng = draw(st.integers(65, 400))  # several L1 entries (64 clusters per L2 table)
     base = draw(c01.qcow2_spec(tier, layer=0, size_clusters=ng, cluster_bits=cb, allow_backing=True))
     force = {"version": base["version"], "ext_l2": base["ext_l2"], "data_file": base["data_file"]}
     snaps = []
@@ -89,6 +91,12 @@ def qcow2_snap(draw, tier):
             "extra_size": draw(st.sampled_from([16, 24, 16, 0])), "clusters": other["clusters"],
             "share_active": draw(st.sampled_from([False, False, False, True])),
         })
+        # L1 table of another length than the active one (snapshot taken before a resize)
+        how = draw(st.sampled_from([None, None, "trim", "grow"]))
+        if how == "trim":
+            snaps[-1]["l1_trim"] = True
+        elif how == "grow":
+            snaps[-1]["l1_grow"] = draw(st.sampled_from([1, 3, 64]))
     base["snapshots"] = snaps
     base["open_late"] = draw(st.booleans())  # open the snapshot views only after the active view has been read from
     base["far_base"] = min(base["far_base"], 1 << 40)  # snapshot views may hold compressed clusters of their own
